@@ -57,7 +57,7 @@ def _run(ctx):
                 "None" if mx is None else "(Some %d%%nat)" % mx, opsg, "; ".join(Hs.g_out(r) for r in mo),
                 Hs.g_hlist(md[-1]), "; ".join(str(x) for x in mb.queue())))
             metas.append(dict(kind=kind, backend="memory", max_completed=mx, ops=ops))
-            evictions = sum(1 for k, o in enumerate(ops) if o[0] in ("update", "status")
+            evictions = sum(1 for k, o in enumerate(ops[:len(mo)]) if o[0] in ("update", "status")
                             and len(md[k + 1]) < len(md[k]))
             for f in Hs.monitor_history("memory", ops, mo, md, mx)[:1]:
                 fails.append(dict(key=f[0], why=f[1], op_index=f[2], backend="memory", max_completed=mx, ops=ops))
@@ -67,11 +67,12 @@ def _run(ctx):
             cov["queries_nonempty_result"] += sum(1 for o, r in zip(ops, mo) if o[0] == "query" and r)
             cov["queries_with_empty_filter"] += sum(1 for o in ops if o[0] == "query" and any(f == [] for f in o[1][:4]))
             cov["deletes_removing"] += sum(1 for o, r in zip(ops, mo) if o[0] == "delete" and r)
-            cov["status_updates_applied"] += sum(1 for k, o in enumerate(ops) if o[0] == "status" and md[k] != md[k + 1])
+            cov["status_updates_applied"] += sum(1 for k, o in enumerate(ops[:len(mo)])
+                                                 if o[0] == "status" and md[k] != md[k + 1])
             cov["repeated_terminal_updates"] += sum(
-                1 for k, o in enumerate(ops) if o[0] == "update" and Hs.is_term(o[1])
+                1 for k, o in enumerate(ops[:len(mo)]) if o[0] == "update" and Hs.is_term(o[1])
                 and any(c[0] == o[1][0] and Hs.is_term(c) for c in md[k]))
-            cov["reopened"] += sum(1 for k, o in enumerate(ops) if o[0] == "update" and not Hs.is_term(o[1])
+            cov["reopened"] += sum(1 for k, o in enumerate(ops[:len(mo)]) if o[0] == "update" and not Hs.is_term(o[1])
                                    and any(c[0] == o[1][0] and Hs.is_term(c) for c in md[k]))
             ctx.count(1, (kind, mx, tuple(o[0] for o in ops), len(md[-1]), evictions))
             if kind != "retention":
@@ -86,7 +87,7 @@ def _run(ctx):
                     cov["cross_compared"] += 1
                     a, b = srt(mo), srt(so)
                     if a != b or sorted(md[-1]) != sorted(sd[-1]):
-                        k = next((j for j in range(len(a)) if a[j] != b[j]), len(a))
+                        k = next((j for j in range(min(len(a), len(b))) if a[j] != b[j]), min(len(a), len(b)))
                         fails.append(dict(key="C24/backends-differ", op_index=k, ops=ops,
                                           why="memory and SQLite stores answer differently at operation %d (%r): "
                                               "memory %r, sqlite %r" % (k, ops[k] if k < len(ops) else "final state",
